@@ -2243,3 +2243,254 @@ def _dbl_search(cfg, fn, T, relnodes, killers, kills):
 def _mentions(cond, name):
     import re
     return re.search(r'(?<![A-Za-z0-9_>.])' + re.escape(name) + r'(?![A-Za-z0-9_])', cond) is not None
+
+
+def own9(units, R):
+    """Clearing an ownership bit is a claim: `X->type &= ~cJSON_StringIsConst` says X owns X->string from here on (cJSON_Delete
+    will free it).  On every path through such a store to the function's end, the memory the bit describes is X's own: X is a
+    node created in this function, or the field was assigned - on that path - a fresh copy, NULL, or a pointer taken from
+    another node under the clear edge of *that* node's bit (ownership handed over), or the bit was already tested clear.
+    A path on which the field still holds what it held on entry, a borrowed pointer (cast_away_const) or another node's field
+    taken without looking at its bit, is reported.  Path-sensitive (states are followed along the CFG with the kinds of the
+    locals involved), so `new_key` being a constant key on one path and a copy on the other is told apart."""
+    from .tree import _fresh_sources
+    u = units['cJSON.c']
+    BIT = {'cJSON_IsReference': 256, 'cJSON_StringIsConst': 512}
+    FIELDS = {}
+    for f_, fl_ in FLAG_FOR_FIELD.items():
+        FIELDS.setdefault(fl_, []).append(f_)
+    fresh = _fresh_sources(u) | {'cJSON_Duplicate_rec', 'cJSON_Duplicate', 'cJSON_strdup'}
+    n = 0
+
+    def flag_masks(e):
+        """(bits surely cleared, bits surely set) by the constant masks applied in e (X & ~F, X | F)"""
+        clr, st = 0, 0
+        e = strip_casts(e)
+        if e.get('k') == 'bin' and e['op'] == '&':
+            for (a, b) in ((e['l'], e['r']), (e['r'], e['l'])):
+                m = const_val(b)
+                if m is not None:
+                    c2, s2 = flag_masks(a)
+                    return (c2 | (~m & 0x300)), (s2 & m)
+        if e.get('k') == 'bin' and e['op'] == '|':
+            for (a, b) in ((e['l'], e['r']), (e['r'], e['l'])):
+                m = const_val(b)
+                if m is not None:
+                    c2, s2 = flag_masks(a)
+                    return (c2 & ~m), (s2 | (m & 0x300))
+        return 0, 0
+
+    for fn in u.function_list:
+        if fn.body is None:
+            continue
+        clears = []
+        for a in assignments(fn):
+            l = strip_casts(a['l'])
+            if l.get('k') == 'mem' and l['f'] == 'type' and 'cJSON' in u.ty(strip_casts(l['b'])['ty'])['s']:
+                clears.append(a)
+        if not clears:
+            continue
+        # is any bit ever cleared here (directly or through an int local)?
+        int_marks = {}
+        for a in assignments(fn):
+            if is_ref(a['l']) and u.ty(strip_casts(a['l']).get('ty0', strip_casts(a['l'])['ty']))['c'] == 'int' and a['op'] == '=':
+                c_, s_ = flag_masks(a['r'])
+                if c_ or s_:
+                    int_marks.setdefault(strip_casts(a['l'])['d'], []).append((a['id'], c_, s_))
+        for d_ in fn.locals():
+            if 'init' in d_:
+                c_, s_ = flag_masks(d_['init'])
+                if c_ or s_:
+                    int_marks.setdefault(d_['d'], []).append((d_.get('id', -d_['d']), c_, s_))
+        relevant = False
+        for a in clears:
+            if a['op'] == '&=' and const_val(a['r']) is not None and (~const_val(a['r']) & 0x300):
+                relevant = True
+            elif a['op'] == '=':
+                c_, s_ = flag_masks(a['r'])
+                r0 = strip_casts(a['r'])
+                if c_ or (r0.get('k') == 'ref' and r0.get('d') in int_marks and any(m[1] for m in int_marks[r0['d']])):
+                    relevant = True
+        if not relevant:
+            continue
+        cfg = fn.cfg()
+        params = {p['d'] for p in fn.params}
+
+        def base_name(e):
+            b = strip_casts(e)
+            return expr_str(b) if b.get('k') == 'ref' else None
+
+        def kind_of(e, st):
+            e0 = strip_casts(e)
+            if is_null_const(e) or e0.get('null'):
+                return 'null'
+            if e0.get('k') == 'call':
+                cn = callee_name(e0)
+                if cn in fresh or (cn is None and indirect_field(e0) in ('allocate', 'reallocate')):
+                    return 'fresh'
+                if cn == 'cast_away_const':
+                    return 'borrowed'
+                return 'unknown'
+            if e0.get('k') == 'ref':
+                if e0.get('d') in st['var']:
+                    return st['var'][e0['d']]
+                return 'borrowed' if e0.get('dk') == 'param' else 'unknown'
+            if e0.get('k') == 'mem' and e0['f'] in FLAG_FOR_FIELD:
+                Y = base_name(e0['b'])
+                if Y is not None and (Y, FLAG_FOR_FIELD[e0['f']]) in st['clear']:
+                    return 'owned'
+                return 'held'
+            if e0.get('k') == 'cond':
+                ks = {kind_of(e0['t'], st), kind_of(e0['e'], st)}
+                # (Y->type & F) ? shared : copy   keeps the bit with the pointer elsewhere (OWN8); here: unknown unless both fine
+                return ks.pop() if len(ks) == 1 else ('fresh' if ks <= {'fresh', 'null', 'owned'} else 'unknown')
+            if e0.get('k') == 'str':
+                return 'borrowed'
+            return 'unknown'
+
+        def freeze(st):
+            return (tuple(sorted(st['var'].items(), key=repr)), tuple(sorted(st['fld'].items())), tuple(sorted(st['cleared'])),
+                    tuple(sorted(st['clear'])), tuple(sorted(st['imark'].items())), tuple(sorted(st['truth'].items())))
+
+        def thaw(fz):
+            return {'var': dict(fz[0]), 'fld': dict(fz[1]), 'cleared': set(fz[2]), 'clear': set(fz[3]), 'imark': dict(fz[4]),
+                    'truth': dict(fz[5])}
+        st0 = {'var': {}, 'fld': {}, 'cleared': set(), 'clear': set(), 'imark': {}, 'truth': {}}
+        assigned_vars = {strip_casts(a_['l'])['d'] for a_ in assignments(fn) if is_ref(a_['l'])}
+        seen = {}
+        work = [(cfg.entry.id, freeze(st0))]
+        bad = {}
+        steps = 0
+        while work:
+            nid, fz = work.pop()
+            if fz in seen.setdefault(nid, set()):
+                continue
+            seen[nid].add(fz)
+            steps += 1
+            if steps > 40000:
+                raise AnalysisBroken('OWN9: %s: too many path states' % fn.name)
+            st = thaw(fz)
+            node = cfg.nodes[nid]
+            if nid == cfg.exit.id or node.kind == 'return':
+                for (X, F, sid) in st['cleared']:
+                    if (X, F) in st['clear']:
+                        continue        # the bit was known to be clear already
+                    for f_ in FIELDS.get(F, []):
+                        fk = st['fld'].get((X, f_), 'entry')
+                        xk = None
+                        for d_, k_ in st['var'].items():
+                            pass
+                        if fk in ('fresh', 'null', 'owned'):
+                            continue
+                        if st['var'].get('node:' + X) == 'fresh':
+                            continue
+                        bad.setdefault((sid, X, F, f_, fk), node.line)
+                if node.kind == 'return':
+                    continue
+            # effects
+            root = node.expr if node.expr is not None else (node.decl.get('init') if node.kind == 'decl' and node.decl and 'init' in node.decl else None)
+            if node.kind == 'decl' and node.decl is not None and root is not None:
+                d_ = node.decl
+                if u.ty(d_['ty'])['c'] == 'ptr':
+                    k_ = kind_of(root, st)
+                    st['var'][d_['d']] = k_
+                    if 'cJSON' in u.ty(d_['ty'])['s']:
+                        st['var']['node:' + d_['n']] = k_
+                elif u.ty(d_['ty'])['c'] == 'int':
+                    c_, s_ = flag_masks(root)
+                    st['imark'][d_['d']] = (c_, s_)
+            elif root is not None and node.kind != 'branch':
+                for ev in node_effects(node):
+                    if ev.kind != 'store':
+                        continue
+                    a = ev.node
+                    l = strip_casts(a['l'])
+                    if l.get('k') == 'ref':
+                        t = u.ty(l.get('ty0', l['ty']))
+                        if t['c'] == 'ptr' and a['op'] == '=':
+                            k_ = kind_of(a['r'], st)
+                            st['var'][l['d']] = k_
+                            if 'cJSON' in t['s']:
+                                st['var']['node:' + l['n']] = k_
+                                # the node variable now designates another node: what was known about its fields is gone
+                                st['fld'] = {kk: v for kk, v in st['fld'].items() if kk[0] != l['n']}
+                                st['cleared'] = {c for c in st['cleared'] if c[0] != l['n']}
+                                st['clear'] = {c for c in st['clear'] if c[0] != l['n']}
+                        elif t['c'] == 'int' and a['op'] == '=':
+                            st['imark'][l['d']] = flag_masks(a['r'])
+                            r0 = strip_casts(a['r'])
+                            if r0.get('k') == 'ref' and r0.get('d') in st['imark']:
+                                st['imark'][l['d']] = st['imark'][r0['d']]
+                    elif l.get('k') == 'mem' and 'cJSON' in u.ty(strip_casts(l['b'])['ty'])['s']:
+                        X = base_name(l['b'])
+                        if X is None:
+                            continue
+                        if l['f'] in FLAG_FOR_FIELD and a['op'] == '=':
+                            st['fld'][(X, l['f'])] = kind_of(a['r'], st)
+                        elif l['f'] == 'type':
+                            c_, s_ = 0, 0
+                            if a['op'] == '&=' and const_val(a['r']) is not None:
+                                c_ = ~const_val(a['r']) & 0x300
+                            elif a['op'] == '|=' and const_val(a['r']) is not None:
+                                s_ = const_val(a['r']) & 0x300
+                            elif a['op'] == '=':
+                                c_, s_ = flag_masks(a['r'])
+                                r0 = strip_casts(a['r'])
+                                if r0.get('k') == 'ref' and r0.get('d') in st['imark']:
+                                    c_, s_ = st['imark'][r0['d']]
+                            for F, bit in BIT.items():
+                                if c_ & bit:
+                                    st['cleared'].add((X, F, a['id']))
+                                    st['clear'].discard((X, F))
+                                if s_ & bit:
+                                    st['cleared'] = {c for c in st['cleared'] if not (c[0] == X and c[1] == F)}
+                                    st['clear'].discard((X, F))
+            for (y, lab) in cfg.succ[nid]:
+                s2 = st
+                if node.kind == 'branch' and lab is not None and lab[0] in ('T', 'F') and node.expr is not None:
+                    e = strip_casts(node.expr)
+                    pol = lab[0] == 'T'
+                    # the same test of a never-assigned flag parameter taken twice goes the same way twice
+                    if e.get('k') == 'ref' and e.get('dk') in ('param', 'local') and e.get('d') not in assigned_vars:
+                        known = st['truth'].get(e['d'])
+                        if known is not None and known != pol:
+                            continue
+                        if known is None:
+                            s2 = thaw(freeze(st))
+                            s2['truth'][e['d']] = pol
+                            work.append((y, freeze(s2)))
+                            continue
+                    pc = cmp_parts(e)
+                    if pc is not None and pc[2] == 0 and pc[1] in ('==', '!='):
+                        if pc[1] == '==':
+                            pol = not pol
+                        e = strip_casts(pc[0])
+                    if e.get('k') == 'bin' and e['op'] == '&':
+                        for (x_, y_) in ((e['l'], e['r']), (e['r'], e['l'])):
+                            x0 = strip_casts(x_)
+                            m = const_val(y_)
+                            if x0.get('k') == 'mem' and x0['f'] == 'type' and m is not None and base_name(x0['b']) is not None:
+                                for F, bit in BIT.items():
+                                    if m == bit and not pol:
+                                        s2 = thaw(freeze(st))
+                                        s2['clear'].add((base_name(x0['b']), F))
+                work.append((y, freeze(s2)))
+        clearing_sites = {c[2] for states in seen.values() for fz in states for c in thaw(fz)['cleared']}
+        for sid in sorted(clearing_sites):
+            n += 1
+            a = next(x for x in clears if x['id'] == sid)
+            mine = [(k, v) for k, v in bad.items() if k[0] == sid]
+            if not mine:
+                R.ob('OWN9', fn, a, 'where %s clears an ownership bit the node owns what the bit describes' % expr_str(a)[:50], True,
+                     'on every path through the store the payload is a fresh copy, NULL, handed over under its owner\'s clear bit, '
+                     'or the node was created here', key='clear:%s' % expr_str(a)[:50])
+                continue
+            (sid_, X, F, f_, fk), line = sorted(mine, key=repr)[0]
+            why = {'entry': 'still holds what it held when the function was entered',
+                   'borrowed': 'was assigned a pointer the library only borrows',
+                   'held': 'was assigned another node\'s pointer without looking at that node\'s %s bit' % F,
+                   'unknown': 'was assigned a value of unknown ownership'}.get(fk, fk)
+            R.ob('OWN9', fn, a, 'where %s clears an ownership bit the node owns what the bit describes' % expr_str(a)[:50], False,
+                 'on a path to line %d %s->%s %s, yet %s is cleared: cJSON_Delete would release memory the node does not own'
+                 % (line, X, f_, why, F), key='clear:%s' % expr_str(a)[:50])
+    R.floor('OWN9', 'stores that clear an ownership bit', n, 3)
